@@ -9,7 +9,7 @@ PROP = 'C14'
 
 def prof(seed):
     k = seed % 3
-    base = dict(p_watch=0.6, p_always=0.4, p_stamp=0.15, p_flag=0.05, p_dyn=0.1, p_opt=0.0, p_multi=0.4)
+    base = dict(p_watch=0.6, p_watch_link=0.35, p_always=0.4, p_stamp=0.15, p_flag=0.05, p_dyn=0.1, p_opt=0.0, p_multi=0.4)
     if k == 0:
         return gen.profile(ops=dict(watch=8, build=8, repeat=4, edit_r=2, edit_i=1, rm=1), **base)
     if k == 1:
